@@ -9,6 +9,8 @@
 #include <fcppt/container/bitfield/object_impl.hpp>
 #include <fcppt/config/external_begin.hpp>
 #include <algorithm>
+#include <cstddef>
+#include <limits>
 #include <fcppt/config/external_end.hpp>
 
 namespace fcppt
@@ -105,7 +107,21 @@ operator~(fcppt::container::bitfield::object<ElementType, InternalType> _field)
       _field.array().begin(),
       _field.array().end(),
       _field.array().begin(),
-      [](InternalType const _arg) { return ~_arg; });
+      [](InternalType const _arg) { return static_cast<InternalType>(~_arg); });
+
+  // The bits of the last word that do not belong to any element have to stay
+  // zero, so that comparison and hashing only depend on the elements.
+  using field_type = fcppt::container::bitfield::object<ElementType, InternalType>;
+
+  constexpr std::size_t const used_bits{
+      static_cast<std::size_t>(field_type::static_size::value) %
+      static_cast<std::size_t>(std::numeric_limits<InternalType>::digits)};
+
+  if constexpr (used_bits != 0U)
+  {
+    _field.array().get_unsafe(field_type::array_size::value - 1U) &=
+        static_cast<InternalType>((static_cast<InternalType>(1U) << used_bits) - 1U);
+  }
 
   return _field;
 }
